@@ -514,6 +514,9 @@ def run_property(prop, tier, obligations, meta, partial=False):
     seed = int(os.environ.get('VERIF_SEED', '0') or 0)
     ctx = Ctx(prop, tier)
     kfs = load_known_findings()
+    cap = os.environ.get('LSV_TIMEOUT_CAP')      # smoke runs of a tier: every obligation's solver budget is capped (timeouts are then reported as undecided)
+    if cap:
+        for ob in obligations: ob.timeout = min(ob.timeout, int(cap))
     results = []
     try:
         # goto objects of the real TUs are built once in the parent; obligations then run in forked worker processes
